@@ -111,7 +111,7 @@ def outboxChunkSize : Nat := 8 * 1024 * 1024
 /-! ## base stores -/
 
 /-- filesystem.go: one file per part; the reader is the `*os.File`. -/
-def fsStore : Store where
+@[reducible] def fsStore : Store where
   σ := KV Bytes
   init := []
   caps := ⟨true, true, true⟩
@@ -127,7 +127,7 @@ def fsStore : Store where
 /-- sql.go: rows (part id, chunk index, content). `PutPart` first deletes the part's rows and then
 writes one row per non-empty chunk — so no row at all for empty content; `GetPart` answers not-found
 when row 0 does not exist. -/
-def sqlStore (F : Fixes) : Store where
+@[reducible] def sqlStore (F : Fixes) : Store where
   σ := KV (List Bytes)
   init := []
   caps := ⟨false, false, false⟩
@@ -159,7 +159,7 @@ def compressDecode (P : Prims) (s : Stream) : GetOut :=
       | some b => .ok ⟨b, false, []⟩
       | none => .err
 
-def compressWrap (P : Prims) (alg : Alg) (sample : Nat) (S : Store) : Store where
+@[reducible] def compressWrap (P : Prims) (alg : Alg) (sample : Nat) (S : Store) : Store where
   σ := S.σ
   init := S.init
   caps := S.caps
@@ -188,7 +188,7 @@ def tinkDecode (P : Prims) (F : Fixes) (i : PartId) (s : Stream) : GetOut :=
       else if !s.afterEof.isEmpty then .err                 -- the extra read after the last segment gets bytes, not EOF
       else .ok ⟨b, false, P.lastSeg b⟩
 
-def tinkWrap (P : Prims) (F : Fixes) (S : Store) : Store where
+@[reducible] def tinkWrap (P : Prims) (F : Fixes) (S : Store) : Store where
   σ := S.σ × Nat
   init := (S.init, 0)
   caps := S.caps
@@ -210,7 +210,7 @@ structure CacheSt (σ : Type) where
   cache : KV Bytes
   hints : List PartId        -- oversizedHints
 
-def cacheWrap (max : Nat) (S : Store) : Store where
+@[reducible] def cacheWrap (max : Nat) (S : Store) : Store where
   σ := CacheSt S.σ
   init := ⟨S.init, [], []⟩
   caps := S.caps
@@ -245,9 +245,20 @@ structure Entry where
   chunks : List Bytes
   deriving Repr, DecidableEq
 
-def lastEntry (q : List Entry) (i : PartId) : Option Entry := (q.filter (fun e => e.id == i)).getLast?
+/-- `FindLastPartOutboxEntryByPartId`: the newest entry of the queue that names part `i`. -/
+def lastEntry : List Entry → PartId → Option Entry
+  | [], _ => none
+  | e :: rest, i =>
+    match lastEntry rest i with
+    | some e' => some e'
+    | none => if e.id == i then some e else none
 
-def outboxWrap (S : Store) : Store where
+/-- order-preserving removal of duplicates (first occurrence wins, like the `seen` maps of the code) -/
+def dedup : List PartId → List PartId
+  | [] => []
+  | a :: l => a :: (dedup l).filter (· != a)
+
+@[reducible] def outboxWrap (S : Store) : Store where
   σ := S.σ × List Entry
   init := (S.init, [])
   caps := ⟨S.caps.get, false, false⟩
@@ -264,7 +275,7 @@ def outboxWrap (S : Store) : Store where
     let keep := inner.filter fun i => match lastEntry s.2 i with
       | some e => e.isPut
       | none => true
-    let added := ((s.2.map (·.id)).eraseDups).filter fun i =>
+    let added := (dedup (s.2.map (·.id))).filter fun i =>
       (match lastEntry s.2 i with | some e => e.isPut | none => false) && !inner.contains i
     keep ++ added
   tick s :=
@@ -278,7 +289,7 @@ def outboxWrap (S : Store) : Store where
 
 /-! ## erasurecoding.go over `c.n` copies of the inner store -/
 
-def ecWrap (P : Prims) (F : Fixes) (c : EC.Cfg) (S : Store) : Store where
+@[reducible] def ecWrap (P : Prims) (F : Fixes) (c : EC.Cfg) (S : Store) : Store where
   σ := Nat → S.σ
   init := fun _ => S.init
   caps := S.caps
@@ -301,7 +312,7 @@ def ecWrap (P : Prims) (F : Fixes) (c : EC.Cfg) (S : Store) : Store where
         | none => s1 k
       ⟨s2, if r.failed then .err else .ok ⟨r.out, false, []⟩, pan || (r.heals.any Option.isSome && !canPut)⟩
   del tx s i := fun k => if k < c.n then S.del tx (s k) i else s k
-  ids s := ((List.range c.n).flatMap fun k => S.ids (s k)).eraseDups
+  ids s := dedup ((List.range c.n).flatMap fun k => S.ids (s k))
   tick s := fun k => if k < c.n then S.tick (s k) else s k
   pending s := ((List.range c.n).map fun k => S.pending (s k)).sum
 
